@@ -59,6 +59,15 @@ def single(args):
         else:
             for p in prob.parameters:
                 p['bounds'] = [-1.0, 2.0]
+        if args.get('first_precision'):
+            # the first parameter declares a coarse precision, the others none: the re-sampled design must still
+            # respect every parameter's own bounds (default precision 1e-12 for the others)
+            prob.parameters[0]['precision'] = args['first_precision']
+            prob.parameters[0]['bounds'] = [-1.0, 2.0]
+            if dim > 1:
+                prob.parameters[1]['bounds'] = [0.2, 0.4]
+        else:
+            prob.parameters[0].pop('precision', None)
         ind = Individual([ctx.real('x%d' % i) for i in range(dim)])
         for x, p in zip(ind.vector, prob.parameters):
             ctx.assume(And(x >= p['bounds'][0], x <= p['bounds'][1]))
@@ -81,9 +90,9 @@ def single(args):
                 ctx.check('failed-entry-holds-failed-vector', Not(ec.same_vec(prob.failed[k].vector, vec)))
                 ctx.check('failed-entry-state', prob.failed[k].state != Individual.State.FAILED)
         # every attempted vector lies in the box up to half the rounding grid
-        half = 0.5e-12
         for vec, _x, f in calls:
             for x, p in zip(vec, prob.parameters):
+                half = p.get('precision', 1e-12) / 2
                 ctx.check('attempt-inside-box', Or(x < p['bounds'][0] - half, x > p['bounds'][1] + half))
         last = pattern[-1]
         if last == 'ok':
@@ -176,6 +185,8 @@ def configs(tier):
     out = [
         {'name': 'single-dim1', 'task': 'single', 'args': {'dim': 1}, 'weight': 10, 'engine': {'validate': 100}},
         {'name': 'single-dim2-symbolic-box', 'task': 'single', 'args': {'dim': 2, 'symbolic_box': True}, 'weight': 20,
+         'split': 32, 'engine': {'validate': 60}},
+        {'name': 'single-dim2-precision-on-first-parameter-only', 'task': 'single', 'args': {'dim': 2, 'first_precision': 1.0}, 'weight': 20,
          'split': 32, 'engine': {'validate': 60}},
         {'name': 'single-dim1-constraints', 'task': 'single', 'args': {'dim': 1, 'ncon': 1}, 'weight': 20, 'split': 32,
          'engine': {'validate': 60}},
